@@ -2,7 +2,10 @@ package main
 
 import (
 	"fmt"
+	"os"
 	"strings"
+
+	"verif/lib/fsx"
 )
 
 // Link is one symbolic link of a configuration. Place is "R" (link path R/Name)
@@ -194,30 +197,74 @@ type callSpec struct {
 	Name string
 	Mut  bool
 	Rel  bool // also run in the relative-path passes
+	Open bool // a member of the open-flag product (run in the flag stages only)
+	Flag int  // the flag argument of OpenFile
 }
 
 var calls = []callSpec{
-	{"Lstat", false, true},
-	{"Stat", false, true},
-	{"Open+Read", false, true},
-	{"ReadFile", false, true},
-	{"ReadDir", false, true},
-	{"Readlink", false, true},
-	{"EvalSymlinks", false, true},
-	{"Chmod", true, true},
-	{"Chtimes", true, false},
-	{"Truncate", true, false},
-	{"Mkdir-below", true, true},
-	{"Remove", true, true},
-	{"Rename(q,zz)", true, true},
-	{"Rename(f,q)", true, false},
+	{Name: "Lstat", Mut: false, Rel: true},
+	{Name: "Stat", Mut: false, Rel: true},
+	{Name: "Open+Read", Mut: false, Rel: true},
+	{Name: "ReadFile", Mut: false, Rel: true},
+	{Name: "ReadDir", Mut: false, Rel: true},
+	{Name: "Readlink", Mut: false, Rel: true},
+	{Name: "EvalSymlinks", Mut: false, Rel: true},
+	{Name: "Chmod", Mut: true, Rel: true},
+	{Name: "Chtimes", Mut: true, Rel: false},
+	{Name: "Truncate", Mut: true, Rel: false},
+	{Name: "Mkdir-below", Mut: true, Rel: true},
+	{Name: "Remove", Mut: true, Rel: true},
+	{Name: "Rename(q,zz)", Mut: true, Rel: true},
+	{Name: "Rename(f,q)", Mut: true, Rel: false},
 	// the directory R/d moved to a name reached through the query path: when the
 	// query leads back below R/d (through a link) rename(2) answers EINVAL
-	{"Rename(d,q/n)", true, false},
-	{"Lchown", true, false},
-	{"Chown", true, false},
-	{"Link(q,hl)", true, false},
-	{"Link(f,q)", true, true},
+	{Name: "Rename(d,q/n)", Mut: true, Rel: false},
+	{Name: "Lchown", Mut: true, Rel: false},
+	{Name: "Chown", Mut: true, Rel: false},
+	{Name: "Link(q,hl)", Mut: true, Rel: false},
+	{Name: "Link(f,q)", Mut: true, Rel: true},
+}
+
+// The open-flag product. General lesson: whether the LAST element of a name is
+// followed when it is a symbolic link is not a property of the call but of the
+// COMBINATION of its flags, and open(2) decides it from combinations, not from
+// single bits: O_CREAT|O_EXCL does not follow (the name exists: EEXIST, also
+// for a dangling link), O_EXCL without O_CREAT is ignored (the link is
+// followed), O_CREAT alone follows and creates the target of a dangling link,
+// O_TRUNC follows and truncates what the link leads to, and each of them with
+// every access mode (a directory reached through the link opens read-only and
+// is EISDIR for writing or creating). An alphabet with a few fixed flag sets
+// (Open, ReadFile, WriteFile ...) cannot tell an implementation that tests one
+// bit from one that tests the combination. So the flag argument is a dimension
+// of its own: OpenFile + Close with every member of
+// {O_RDONLY, O_WRONLY, O_RDWR} x {-, O_EXCL} x {-, O_CREATE} x {-, O_TRUNC}
+// on every query path (final element a link to a file, to a directory,
+// dangling, looping, a file, a directory, missing; links in intermediate
+// position), each on a pristine tree and followed by the comparison of the
+// whole trees (what was created or truncated, and where). The oracle is the
+// kernel given the same flags through package os on tmpfs. These calls are
+// appended to the alphabet and run in the flag stages (stage.Flags) only.
+var (
+	openAccess = []int{os.O_RDONLY, os.O_WRONLY, os.O_RDWR}
+	openBits   = []int{os.O_EXCL, os.O_CREATE, os.O_TRUNC}
+)
+
+const openPerm = 0o644
+
+func init() {
+	for _, acc := range openAccess {
+		for m := 0; m < 1<<len(openBits); m++ {
+			fl := acc
+
+			for b, bit := range openBits {
+				if m&(1<<b) != 0 {
+					fl |= bit
+				}
+			}
+
+			calls = append(calls, callSpec{Name: "OpenFile(" + fsx.FlagString(fl) + ")", Mut: true, Rel: true, Open: true, Flag: fl})
+		}
+	}
 }
 
 // stage is one exhaustively enumerated sub-space: all configurations with
@@ -226,12 +273,37 @@ var calls = []callSpec{
 //
 // Moved: the configurations are the graphs crossed with every move (see
 // allMoves); the questions are asked of the moved tree.
+//
+// Flags: the calls are Lstat (for the class of the query's final component)
+// and the open-flag product instead of the 19 calls of the other stages.
 type stage struct {
 	Name    string
 	NLinks  int
 	AbsLens []int
 	RelLens []int
 	Moved   bool
+	Flags   bool
+}
+
+// runs tells whether call i of the alphabet belongs to the stage.
+func (st stage) runs(i int, cs callSpec) bool {
+	if st.Flags {
+		return cs.Open || i == 0
+	}
+
+	return !cs.Open
+}
+
+func (st stage) numCalls() int {
+	n := 0
+
+	for i, cs := range calls {
+		if st.runs(i, cs) {
+			n++
+		}
+	}
+
+	return n
 }
 
 func (st stage) bound() string {
@@ -242,8 +314,13 @@ func (st stage) bound() string {
 		graphs += fmt.Sprintf(" x every move applied after the links are made {%s} (query alphabet + e after dir and swap)", strings.Join(sp.moves, ","))
 	}
 
-	return fmt.Sprintf("%s: %s x absolute queries of length %s x %d calls + relative queries (cwd=R, cwd=the directory made as R/d) of length %s",
-		st.Name, graphs, lensString(st.AbsLens), len(calls), lensString(st.RelLens))
+	what := fmt.Sprintf("%d calls", st.numCalls())
+	if st.Flags {
+		what = fmt.Sprintf("%d calls: Lstat + OpenFile(flags)+Close for every flag set of {RDONLY,WRONLY,RDWR} x {-,EXCL} x {-,CREATE} x {-,TRUNC}, trees compared after each", st.numCalls())
+	}
+
+	return fmt.Sprintf("%s: %s x absolute queries of length %s x %s + relative queries (cwd=R, cwd=the directory made as R/d) of length %s",
+		st.Name, graphs, lensString(st.AbsLens), what, lensString(st.RelLens))
 }
 
 func (st stage) space() *space { return newSpace(st.NLinks, st.Moved) }
@@ -259,19 +336,25 @@ func lensString(l []int) string {
 
 func stagesFor(tier string) []stage {
 	// M: the moved graphs, one link at the query depth of A; thorough adds one
-	// link at the depth of B/E (M4) and two links of which one or none moves (N)
+	// link at the depth of B/E (M4) and two links of which one or none moves (N).
+	// F: the open-flag product on all 1-link graphs at the query depth of A;
+	// thorough adds one link at the depth of B/E (F4) and two links (F2)
 	if tier != "thorough" {
 		return []stage{
 			{Name: "M", NLinks: 1, AbsLens: []int{1, 2, 3}, RelLens: []int{1, 2}, Moved: true},
+			{Name: "F", NLinks: 1, AbsLens: []int{1, 2, 3}, RelLens: []int{1, 2}, Flags: true},
 			{Name: "A", NLinks: 2, AbsLens: []int{1, 2, 3}, RelLens: []int{1, 2}},
 		}
 	}
 
 	return []stage{
 		{Name: "M", NLinks: 1, AbsLens: []int{1, 2, 3}, RelLens: []int{1, 2}, Moved: true},
+		{Name: "F", NLinks: 1, AbsLens: []int{1, 2, 3}, RelLens: []int{1, 2}, Flags: true},
 		{Name: "A", NLinks: 2, AbsLens: []int{1, 2, 3}, RelLens: []int{1, 2}},
 		{Name: "N", NLinks: 2, AbsLens: []int{1, 2}, RelLens: []int{1}, Moved: true},
 		{Name: "M4", NLinks: 1, AbsLens: []int{4}, RelLens: []int{3}, Moved: true},
+		{Name: "F4", NLinks: 1, AbsLens: []int{4}, RelLens: []int{3}, Flags: true},
+		{Name: "F2", NLinks: 2, AbsLens: []int{1, 2}, RelLens: []int{1}, Flags: true},
 		{Name: "C", NLinks: 3, AbsLens: []int{1, 2}, RelLens: []int{1}},
 		{Name: "B", NLinks: 2, AbsLens: []int{4}, RelLens: []int{3}},
 		{Name: "D", NLinks: 3, AbsLens: []int{3}, RelLens: []int{2}},
